@@ -124,6 +124,28 @@ def is_newton(e, n):
 
 
 def work(t):
+  """an exception while the real code is traced / symbolically evaluated (e.g. a concrete 0 ** negative that the real code
+  hides behind a `where`) is a harness error unless the model-free replay reproduces a property violation on the real routine"""
+  try:
+    return _work(t)
+  except Exception as ex:
+    if t.get('ob') in ('S0', 'S6'):
+      raise
+    what = None
+    try:
+      what = concrete(dict(t))
+    except Exception:
+      pass
+    if not what:
+      raise
+    path = write_replay(PID, dict(property=PID, replay=dict(t), observed=what))
+    name = '|'.join(f'{k}={v}' for k, v in t.items() if k != 'tier')
+    return dict(results=[dict(name=f'{name}|symbolic evaluation stopped ({type(ex).__name__}: {str(ex)[:80]}); model-free replay on the real routine',
+                              status='violation', kind='core', queries=0, note=what)],
+                violations=[dict(key=f"C01:{t.get('ob')}:replay", what=what, replay=path)], errors=[], configs=1, samples=[dict(task=t)], extra={})
+
+
+def _work(t):
   from precondition import distributed_shampoo as ds
   t0_ = time.time()
   ob = t['ob']
@@ -501,6 +523,21 @@ def concrete(rp):
       if float(s) > lam * (1 + 1e-4) + 1e-9:
         return f'power iteration estimate {float(s)} exceeds the largest eigenvalue {lam}'
       continue
+    if eigh and k >= 2:
+      # tiny ridge on a rank-deficient statistic: float32 eigh returns eigenvalues slightly below 0 for the null space; the
+      # returned matrix must still be finite, symmetric and zero on the padding
+      for kk_, nn_, ps_ in ((k, n, k), (k, k, None), (4, 4, None)):
+        G1 = rng.randn(kk_, 1)
+        S1 = np.zeros((nn_, nn_))
+        S1[:kk_, :kk_] = G1 @ G1.T
+        for tiny in (1e-10, 1e-30):
+          X1, m1 = ds.matrix_inverse_pth_root(jnp.asarray(S1, jnp.float32), p, ridge_epsilon=tiny, relative_matrix_epsilon=False, padding_start=ps_, eigh=True)
+          X1 = np.asarray(X1, np.float64)
+          if not np.all(np.isfinite(X1)):
+            return (f'non-finite root (reported error {float(m1.inverse_pth_root_errors)}) from the eigh variant for a rank-1 {kk_}x{kk_} PSD statistic '
+                    f'{S1[:kk_, :kk_].reshape(-1).tolist()} (padded to {nn_}x{nn_}, padding_start={ps_}) with ridge_epsilon={tiny}, p={p}')
+          if np.any(X1[kk_:, :] != 0) or np.any(X1[:, kk_:] != 0):
+            return f'root is not exactly zero on padding rows/columns (n={nn_}, padding_start={ps_}, ridge_epsilon={tiny})'
     X, m = ds.matrix_inverse_pth_root(jnp.asarray(S, jnp.float32), p, ridge_epsilon=EPS, relative_matrix_epsilon=False, padding_start=k, eigh=eigh)
     X = np.asarray(X, np.float64)
     err = float(m.inverse_pth_root_errors)
